@@ -141,11 +141,15 @@ def r19_3(ctx):
             if v2 != v:
                 rest |= r
         return regs2[v] - rest
-    um = [(bb, t) for bb, t in u.calls() if bb in excl2("UnmatchedExpectation") and mname(t) == "Vec::push" and "unmatched_lines" in ou.operand(t["args"][0]).show()]
+    # private fields of the hunk buffer are bound by their types (a rename keeps the anchor)
+    F_UNM = prog.field_by_type("UnifiedDiff", "Vec<String>", "unmatched_lines")
+    F_UNX = prog.field_by_type("UnifiedDiff", "Vec<(usize, String)>", "unexpected_lines")
+    F_STARTS = {prog.field_by_type("UnifiedDiff", "Option<usize>", "unmatched_start", nth=0), prog.field_by_type("UnifiedDiff", "Option<usize>", "unexpected_start", nth=1)}
+    um = [(bb, t) for bb, t in u.calls() if bb in excl2("UnmatchedExpectation") and mname(t) == "Vec::push" and ("." + F_UNM) in ou.operand(t["args"][0]).show()]
     ctx.check(len(um) == 1 and ou.operand(um[0][1]["args"][1]).has_call("Expectation::original_string"), "diff:unmatched-buffered", u.loc(sb2),
               "every unmatched expectation is buffered into the hunk (original text)", "the diff renderer's Unmatched arm buffers %d lines" % len(um))
     ux = [(bb, t) for bb, t in u.calls() if bb in excl2("UnexpectedLines") and mname(t) in ("Extend::extend", "Vec::extend", "Vec::push", "Vec::append")
-          and "unexpected_lines" in ou.operand(t["args"][0]).show()]
+          and ("." + F_UNX) in ou.operand(t["args"][0]).show()]
     ctx.check(len(ux) == 1, "diff:unexpected-buffered", u.loc(sb2), "unexpected lines are buffered into the hunk", "Unexpected arm buffers %d times" % len(ux))
     for bb, t in ux:
         src = ou.operand(t["args"][1])
@@ -178,11 +182,11 @@ def r19_3(ctx):
                 if ve3 is None:
                     continue
                 tree3 = ou.operand({"copy": rv3["place"]})
-            flds = {n.a for n in tree3.walk() if n.kind == "field" and n.a in ("unmatched_start", "unexpected_start")}
+            flds = {n.a for n in tree3.walk() if n.kind == "field" and n.a in F_STARTS}
             if flds:
                 tests.append(sb3)
                 seen_fields |= flds
-        ctx.check(bool(tests) and seen_fields == {"unmatched_start", "unexpected_start"} and all(any(u.dominates(tb, ob) for tb in tests) for ob in oks),
+        ctx.check(bool(tests) and seen_fields == F_STARTS and len(F_STARTS) == 2 and all(any(u.dominates(tb, ob) for tb in tests) for ob in oks),
                   "diff:final-flush-dominates", u.where(), "every path to Ok(output) passes the final `anything buffered?` test (both hunk starts are examined)",
                   "after the loop the decision to flush looks at %s only / does not dominate Ok" % sorted(seen_fields))
     # hunk writer closures emit the buffered lines
